@@ -88,7 +88,69 @@ func c01Entries(c *Ctx) []*ssa.Function {
 			}
 		}
 	}
+	// callbacks: a function of these packages whose value is handed to code
+	// outside the module (bufio.Scanner.Split, strings.FieldsFunc, sort and
+	// slices helpers, ...) is called by the library with arguments this
+	// analysis does not see: it is an entry of its own, with unconstrained
+	// arguments and captured variables
+	have := map[*ssa.Function]bool{}
+	for _, f := range out {
+		have[f] = true
+	}
+	for _, cb := range c01Callbacks(c) {
+		if !have[cb] {
+			have[cb] = true
+			out = append(out, cb)
+		}
+	}
 	sort.Slice(out, func(i, j int) bool { return out[i].String() < out[j].String() })
+	return out
+}
+
+// c01Callbacks lists the functions of the C01 packages that escape, as
+// values, into calls of functions outside the module.
+func c01Callbacks(c *Ctx) []*ssa.Function {
+	var out []*ssa.Function
+	seen := map[*ssa.Function]bool{}
+	fnOf := func(v ssa.Value) *ssa.Function {
+		for {
+			switch x := v.(type) {
+			case *ssa.Function:
+				return x
+			case *ssa.MakeClosure:
+				f, _ := x.Fn.(*ssa.Function)
+				return f
+			case *ssa.ChangeType:
+				v = x.X
+			case *ssa.MakeInterface:
+				v = x.X
+			default:
+				return nil
+			}
+		}
+	}
+	for _, pkg := range c01Packages {
+		for _, f := range c.P.Funcs(pkg) {
+			core.EachInstr(f, func(in ssa.Instruction) {
+				ci, ok := in.(ssa.CallInstruction)
+				if !ok {
+					return
+				}
+				cc := ci.Common()
+				if callee := cc.StaticCallee(); callee != nil && core.InModule(callee) {
+					return
+				}
+				for _, a := range cc.Args {
+					cb := fnOf(a)
+					if cb == nil || seen[cb] || len(cb.Blocks) == 0 || !core.InModule(cb) || len(cb.Params) == 0 {
+						continue
+					}
+					seen[cb] = true
+					out = append(out, cb)
+				}
+			})
+		}
+	}
 	return out
 }
 
